@@ -186,4 +186,15 @@ theorem empty_login_stops_breeze (cfg : Cfg) (now : Nat) (off : Int) (rest : Lis
     have hg : guardStops "control_breeze_device" [] = true := guardStops_empty _ (Or.inl (by decide +kernel))
     simp [prog, controlBreeze, withLogin, timestampToHex_ok now hnow, hl1, runProg, hg]
 
+/-! ### non-vacuity: concrete faulty exchanges -/
+
+/-- a state query answered by a reply cut in the middle of the power field: RuntimeError, two frames written -/
+example : (match runProg (prog C03.demoCfg 1700000000 0 .getState) [C03.demoLogin, List.replicate 78 7] with
+    | (frames, .error e) => frames.length == 2 && e == .runtimeError
+    | _ => false) = true := by decide +kernel
+/-- an unanswered login stops a type-2 operation after the login frame -/
+example : (match runProg (prog C03.demoCfg 1700000000 0 .stop) [[], [1]] with
+    | (frames, .error e) => frames.length == 1 && e == .runtimeError
+    | _ => false) = true := by decide +kernel
+
 end Props.C09
